@@ -169,6 +169,8 @@ def bounds(tier):
         "seeds": "{0, 1, VERIF_SEED}", "n_iter": L.N_ITER, "prior activities": list(L.PRIORS),
         "plot_dims": f"fit(Gibbs) with save + convergence plots (+ patient plots), sourcewise or not, on logistic models of every (dimension 1..4, sources 0..dimension-1): "
                      "same bytes as the same fit without logging",
+        "algo_object": "one seeded algorithm object (algorithm_factory) run three times (new model copies, random numbers consumed in between): "
+                       "each run returns the bytes of the public call",
         "same_object": "a model object fitted in the process (Gibbs, with and without annealing), then the seeded personalize (3 algorithms) / "
                        "simulate call made twice on it: identical bytes",
         "n_jobs": f"personalize(scipy_minimize, seed=0, n_jobs in {[1, 2] if tier == 'quick' else [1, 2, 3]}) on {NJOBS_MODELS[tier]} in a new non-daemonic "
@@ -244,6 +246,11 @@ def shards(tier, seed):
             if algo == "simulate" and m != "logistic":
                 continue
             out.append({"kind": "same_object", "algo": algo, "model": m, "seeds": [0] if quick else seeds})
+    for algo in list(L.FIT_SAMPLERS) + list(L.PERSONALIZE) + ["simulate"]:
+        for m in L.MODELS:
+            if (algo == "simulate" and m != "logistic") or (quick and algo in ("fit_fastgibbs", "fit_mh") and m != "logistic"):
+                continue
+            out.append({"kind": "algo_object", "algo": algo, "model": m, "seeds": [0] if quick else seeds})
 
     budget = 25.0 if quick else 60.0
 
@@ -647,6 +654,70 @@ def run_same_object(acc, shard):
                 acc.outcome("same_object:repeat identical")
 
 
+def run_algo_object(acc, shard):
+    """ONE seeded algorithm object (`algorithm_factory(settings)`), run several times in a row: the run re-seeds, so every run
+    returns the bytes of the first one - which are also the bytes of the public call that builds its own algorithm object.
+    (fit: each run on a new copy of the model; between two runs random numbers are consumed from the three generators.)"""
+    import io
+    import random
+    from contextlib import redirect_stdout
+
+    import numpy as np
+    import torch
+    from leaspy.algo import AlgorithmSettings, algorithm_factory
+
+    algo, model_name = shard["algo"], shard["model"]
+    site = L.algo_site(algo)
+    for seed in shard["seeds"]:
+        case = {"check": "algo_object", "algo": algo, "model": model_name, "seed": seed}
+        acc.evaluation(4)
+        acc.nontriv(json.dumps(case, sort_keys=True))
+        digests, values = [], []
+        failed = None
+        try:
+            with redirect_stdout(io.StringIO()), L.quiet():
+                name, kw = L.algo_kwargs(algo, seed)
+                # reference: the public call
+                model, ds = L.make_model_and_data(model_name, 0, 5)
+                if algo in L.FIT_SAMPLERS:
+                    res = model.fit(ds, name, **kw)
+                elif algo in L.PERSONALIZE:
+                    res = model.personalize(ds, name, **kw)
+                else:
+                    res = model.simulate(algorithm=name, **kw)
+                parts = L.observe_result(algo, model, res)
+                digests.append(L.digest_parts(parts))
+                values.append({l: L._readable(v) for l, v in parts})
+                name, kw = L.algo_kwargs(algo, seed)
+                algorithm = algorithm_factory(AlgorithmSettings(name, **kw))
+                for rep in range(3):
+                    model, ds = L.make_model_and_data(model_name, 0, 5)
+                    from leaspy.io.data import Dataset
+                    res = algorithm.run(model) if algo == "simulate" else algorithm.run(model, Dataset(ds) if not isinstance(ds, Dataset) else ds)
+                    parts = L.observe_result(algo, model, res)
+                    digests.append(L.digest_parts(parts))
+                    values.append({l: L._readable(v) for l, v in parts})
+                    random.random(), np.random.rand(3 + rep), torch.rand(2 + rep)
+        except Exception as e:  # noqa: BLE001
+            failed = e
+        if failed is not None:
+            which = ["public call", "first run", "second run", "third run"][len(digests)] if len(digests) < 4 else "?"
+            acc.violation(f"{site}|{type(failed).__name__}|{which} of one seeded algorithm object",
+                          f"{type(failed).__name__}: {str(failed)[:300]}", case)
+            acc.outcome(f"algo_object:raise:{type(failed).__name__}")
+            continue
+        for k, which in ((1, "first"), (2, "second"), (3, "third")):
+            if digests[k] != digests[0]:
+                parts = sorted(p_ for p_ in set(values[0]) | set(values[k]) if values[0].get(p_) != values[k].get(p_))
+                acc.violation(f"{site}|result differs from the public seeded call|{which} run of one seeded algorithm object",
+                              f"differing parts: {parts[:8]}", case, expected={p_: values[0].get(p_) for p_ in parts[:3]},
+                              observed={p_: values[k].get(p_) for p_ in parts[:3]})
+                acc.outcome(f"algo_object:{which} run differs")
+                break
+        else:
+            acc.outcome("algo_object:identical")
+
+
 def run_shard(shard):
     acc = Acc()
     L.ensure_env()
@@ -655,6 +726,8 @@ def run_shard(shard):
             run_plot_dims(acc, shard)
         elif shard["kind"] == "same_object":
             run_same_object(acc, shard)
+        elif shard["kind"] == "algo_object":
+            run_algo_object(acc, shard)
         elif shard["kind"] == "njobs":
             run_njobs(acc, shard)
         elif shard["kind"] == "interp":
@@ -697,6 +770,10 @@ def replay(case):
     if case.get("check") == "same_object":
         acc = Acc()
         run_same_object(acc, {"algo": case["algo"], "model": case["model"], "seeds": [case["seed"]]})
+        return [{"signature": v["signature"], "message": v["message"]} for v in acc.violations.values()]
+    if case.get("check") == "algo_object":
+        acc = Acc()
+        run_algo_object(acc, {"algo": case["algo"], "model": case["model"], "seeds": [case["seed"]]})
         return [{"signature": v["signature"], "message": v["message"]} for v in acc.violations.values()]
     if case.get("check") == "njobs":
         acc = Acc()
